@@ -1,3 +1,38 @@
-/- C06 — property theorems over Qfx.Model.Session (placeholder being filled; see checklist at the end) -/
+/- C06 — the session-level gate. First theorems (order of checks, reaction selection); more in progress (DESIGN §5 C06). -/
 import Qfx.Spec.Session
-open Qfx Qfx.Sess Qfx.SessSpec
+open Qfx Qfx.Sess
+
+/-- a wrong BeginString stops verification before anything else, whatever was asked for -/
+theorem C06_beginstring_first (s : Sess) (m : InMsg) (r : Rej) (a b c : Bool) (h : checkBeginString s m = some r) :
+    verifySelect s m a b c = (s, some r) := by
+  simp [verifySelect, h]
+
+/-- CompIDs are checked next -/
+theorem C06_compid_second (s : Sess) (m : InMsg) (r : Rej) (a b c : Bool) (h0 : checkBeginString s m = none) (h : checkCompID s m = some r) :
+    verifySelect s m a b c = (s, some r) := by
+  simp [verifySelect, h0, h]
+
+/-- reactions FIX mandates: wrong BeginString ⇒ Logout only; the expected number is not touched -/
+theorem C06_reaction_beginstring (s : Sess) (m : InMsg) : processReject s m .badBeginString = (initiateLogout s, .logout) := rfl
+
+/-- CompID problem (9) / SendingTime accuracy problem (10) ⇒ Reject with that reason, then Logout -/
+theorem C06_reaction_compid (s : Sess) (m : InMsg) (t : Option Nat) (b : Bool) :
+    processReject s m (.plain 9 t b) = (initiateLogout (doReject s m 9 t b), .logout) := by
+  simp [processReject]
+theorem C06_reaction_sendingtime (s : Sess) (m : InMsg) (t : Option Nat) (b : Bool) :
+    processReject s m (.plain 10 t b) = (initiateLogout (doReject s m 10 t b), .logout) := by
+  simp [processReject]
+
+/-- a missing / empty / malformed field ⇒ a plain Reject naming it, and the message's number is consumed -/
+theorem C06_reaction_plain (s : Sess) (m : InMsg) (reason : Nat) (t : Option Nat) (b : Bool) (h9 : reason ≠ 9) (h10 : reason ≠ 10) :
+    processReject s m (.plain reason t b) = (incrTarget (doReject s m reason t b), .inSession) := by
+  simp [processReject, h9, h10]
+
+/-- Rejects quote the offending MsgSeqNum -/
+theorem C06_reject_refseq (cfg : Cfg) (m : InMsg) (reason : Nat) (t : Option Nat) (n : Int) (h : getInt m 34 = .val n) :
+    (45, toString n) ∈ (rejectMsg cfg m reason t false).f := by
+  unfold rejectMsg
+  simp only [h]
+  split
+  · split <;> simp [mkOut]
+  · simp [mkOut]
